@@ -7,6 +7,7 @@ import (
 	"io"
 	"net"
 	"os"
+	"strconv"
 	"sync"
 	"time"
 )
@@ -166,6 +167,13 @@ func Dial(kind string, args ...any) (net.Conn, error) {
 			return net.DialTimeout(network, addr, to)
 		default:
 			return nil, fmt.Errorf("verifrt.Dial: no world installed and pass-through of %s not supported", kind)
+		}
+	}
+	// what the real dialer refuses before anything reaches the network is refused here too:
+	// a port that is not a number in 0..65535
+	if _, port, err := net.SplitHostPort(addr); err == nil {
+		if n, perr := strconv.Atoi(port); perr != nil || n < 0 || n > 65535 {
+			return nil, &net.OpError{Op: "dial", Net: network, Err: &net.AddrError{Err: "invalid port", Addr: port}}
 		}
 	}
 	rec := &ConnRec{Kind: kind, Network: network, Addr: addr, TLSConfig: cfg, By: Current()}
